@@ -179,6 +179,20 @@ Proof. vm_compute. reflexivity. Qed.
 (* harmless variants stay safe *)
 Definition facts_ret_first : facts := mkfacts [MRet; MFlag; MImpl] [StAssignRet; StSetFlag] GetGuarded true true.
 Definition facts_always_wait : facts := mkfacts [MFlag; MRet; MImpl] [StAssignRet; StSetFlag] GetAlwaysWait true true.
+(* a flag that does not publish (e.g. a relaxed store): the no-wait path of get() races on retValue *)
+Definition facts_relaxed_flag : facts := mkfacts [MFlag; MRet; MImpl] [StAssignRet; StSetFlag] GetGuarded true false.
+Lemma relaxed_flag_refuted : check (mkcfg facts_relaxed_flag Spawn false) safe_life = false
+                          /\ check (mkcfg facts_relaxed_flag Spawn true) safe_life = false.
+Proof. split; vm_compute; reflexivity. Qed.
+(* ... unless get() always waits (then the join orders the accesses) *)
+Definition facts_relaxed_always_wait : facts := mkfacts [MFlag; MRet; MImpl] [StAssignRet; StSetFlag] GetAlwaysWait true false.
+Lemma relaxed_always_wait_ok : check_all facts_relaxed_always_wait = true.
+Proof. vm_compute. reflexivity. Qed.
+Lemma flag_publishes_table :
+  flag_publishes [MSeqCst] [MSeqCst; MSeqCst] = true /\ flag_publishes [MRelease] [MAcquire] = true /\
+  flag_publishes [MRelaxed] [MSeqCst] = false /\ flag_publishes [MSeqCst] [MRelaxed] = false /\
+  flag_publishes [MSeqCst] [MConsume] = false /\ flag_publishes [MNonAtomic] [MNonAtomic] = false /\ flag_publishes [] [MSeqCst] = false.
+Proof. repeat split. Qed.
 Lemma harmless_ok : check_all facts_ret_first = true /\ check_all facts_always_wait = true.
 Proof. split; vm_compute; reflexivity. Qed.
 
@@ -254,7 +268,8 @@ Proof.
   - simpl in H. destruct H as [H|[H|[H|[H|[]]]]]; try (inversion H; subst; solve_nil).
     destruct (is_live (lflag s)); inversion H; subst; try solve_nil; try (simpl in E1; discriminate).
   - destruct (f_get (c_facts c)).
-    + destruct (is_live (lflag s)); destruct H as [H|[]]; inversion H; subst; try solve_nil; try (simpl in E1; discriminate).
+    + destruct (is_live (lflag s)); [destruct (vflag s); [destruct (f_flag_publishes (c_facts c))|]|];
+        destruct H as [H|[]]; inversion H; subst; try solve_nil; try (simpl in E1; discriminate).
     + destruct H as [H|[]]. inversion H; subst. solve_nil.
     + destruct H as [H|[]]. inversion H; subst. solve_nil.
   - eapply wait_step_slot; eauto.
